@@ -5,6 +5,7 @@
 //! Each state is visited exactly once by construction (canonical enumeration), so no visited set is
 //! needed. Work is spread over threads with rayon; every evaluation runs under `catch_unwind`.
 
+pub mod edits;
 pub mod report;
 
 use rayon::prelude::*;
